@@ -200,7 +200,7 @@ func TestC15_Renderings(t *testing.T) {
 			}
 		}
 		in := strings.Join(toks, "")
-		if strings.Count(in, "(") > 5 {
+		if strings.Count(in, "(") > 4 {
 			return // every unclosed parenthesis multiplies the (unmemoised) parser's work by 8
 		}
 		acc, reasons := c15Check(t, "TestC15_Renderings", []byte(in))
@@ -231,7 +231,7 @@ func TestC15_Strings(t *testing.T) {
 			}
 		}
 		in := sb.String()
-		if strings.Count(in, "(") > 5 {
+		if strings.Count(in, "(") > 4 {
 			return
 		}
 		acc, reasons := c15Check(t, "TestC15_Strings", []byte(in))
